@@ -87,6 +87,62 @@ impl FixtureDatabase {
     }
 @*/
 
+/*@ extract src/fixtures/resolver.rs find_fixture_or_definition_at_position
+@tags C02 C05
+@ret r
+@rename lines vp_lines
+@sig
+    requires unique_at_line(self.defs()),
+    ensures opt_dv(r) == op_goto_or_def(self.file_cache.m(), self.defs(), self.uses(), self.provf(), pv(file_path), line, character),
+@before for 1
+    let ghost dsx = definitions.r@;
+    let ghost ds = dvs(dsx);
+    let ghost pp = p_def_at(pv(file_path), line as int + 1, character as int);
+    proof { assert(ds == bucket(self.defs(), word_at_cursor@)); }
+@loopvar 1 it
+@loop 1
+    invariant dsx == definitions.r@, ds == dvs(dsx), it.seq() == dsx.as_ref(), ds == bucket(self.defs(), word_at_cursor@),
+        pp == p_def_at(pv(file_path), line as int + 1, character as int), target_line == line as int + 1,
+        op_goto(self.file_cache.m(), self.defs(), self.uses(), self.provf(), pv(file_path), line, character) is None,
+        file_content(self.file_cache.m(), pv(file_path)) == Some(content.v@),
+        line_of(content.v@, line as int) == Some(line_content@),
+        word_at(line_content@, character as int) == Some(word_at_cursor@),
+        forall|j: int| 0 <= j < it.index@ ==> !pp(#[trigger] ds[j]),
+@return 2
+    let i = it.index@ as int;
+    assert(dsx[i] == *def);
+    lemma_first_idx(ds, pp, i);
+@return tail
+    if file_content(self.file_cache.m(), pv(file_path)) is Some && self.defs().contains_key(word_at_cursor@) {
+        lemma_first_none(bucket(self.defs(), word_at_cursor@), p_def_at(pv(file_path), line as int + 1, character as int));
+    }
+@*/
+
+/*@ extract src/fixtures/resolver.rs get_definition_at_line
+@tags C02 C04
+@ret r
+@sig
+    ensures opt_dv(r) == first_match(bucket(self.defs(), fixture_name@), p_def_line(pv(file_path), line as int)),
+@before for 1
+    let ghost dsx = definitions.r@;
+    let ghost ds = dvs(dsx);
+    let ghost pp = p_def_line(pv(file_path), line as int);
+    proof { assert(ds == bucket(self.defs(), fixture_name@)); }
+@loopvar 1 it
+@loop 1
+    invariant dsx == definitions.r@, ds == dvs(dsx), it.seq() == dsx.as_ref(), ds == bucket(self.defs(), fixture_name@),
+        pp == p_def_line(pv(file_path), line as int),
+        forall|j: int| 0 <= j < it.index@ ==> !pp(#[trigger] ds[j]),
+@return 1
+    let i = it.index@ as int;
+    assert(dsx[i] == *def);
+    lemma_first_idx(ds, pp, i);
+@return tail
+    if self.defs().contains_key(fixture_name@) {
+        lemma_first_none(bucket(self.defs(), fixture_name@), p_def_line(pv(file_path), line as int));
+    }
+@*/
+
 /*@ extract src/fixtures/resolver.rs get_fixture_definition_at_line
 @tags C02 C04 C20
 @ret r
